@@ -179,6 +179,39 @@ def deep_grammars(rng: random.Random, tier: str):
     return out
 
 
+def transformer_chains(rng: random.Random, tier: str):
+    """Every combination of selector kinds along a chain of single-child rules: `L0 = seq< L1, opt< 'b' > >`, `L1 = seq< L2 >`,
+    `L2 = seq< L3, opt< 'c' > >`, `L3 = one< 'a' >`, the kinds of L0..L2 ranging over store / remove / fold / discard / unselected
+    (L3 stored or unselected): what a transformer does to a node whose only child is itself a selected node with one child, with two
+    children, or with none."""
+    kinds = ['store', 'remove', 'fold', 'discard', None]
+    combos = [(a, b, c, d) for a in kinds for b in kinds for c in kinds for d in ('store', None)]
+    rng.shuffle(combos)
+    per = 25
+    out = []
+    for gi in range(0, len(combos), per):
+        g = Grammar(f"chain{gi // per}")
+        roots, sel = [], {}
+        for (k0, k1, k2, k3) in combos[gi:gi + per]:
+            l3 = g.rule(P('one', C(97)))
+            l2 = g.rule(P('seq', l3, P('opt', P('one', C(99)))))
+            l1 = g.rule(P('seq', l2))
+            l0 = g.rule(P('seq', l1, P('opt', P('one', C(98)))))
+            top = g.rule(P('seq', l0, P('eof')))
+            roots.append(top.id)
+            for r, k in ((l0, k0), (l1, k1), (l2, k2), (l3, k3)):
+                if k is not None:
+                    sel[r.id] = k
+        g.resolve()
+        g.sel = sel
+        out.append((g, roots, {'kind': 'transformer-chain'}))
+    return out
+
+
+def chain_inputs(rng: random.Random, g: Grammar, tier: str):
+    return [b'', b'a', b'ab', b'ac', b'acb', b'abc', b'b', b'aa', b'acbx']
+
+
 def deep_inputs(rng: random.Random, g: Grammar, tier: str):
     base = [b'', b'a', b'aa', b'ab', b'aab', b'aaa', b'ac', b'ax', b'axb', b'acb', b'b', b'(a)', b'((a))', b'((a)', b'(a))', b'(((a)))', b'()']
     extra = corpus.sample_inputs(rng, [97, 98, 99, 120], 3, 60, 2)
@@ -207,6 +240,7 @@ def run(tier: str) -> int:
         mk('sys', with_sel(sysgen, ['all', 'some', 'mixed']), profiles.inputs_exhaustive(3, 5, cap_q=80, cap_t=500), per_tu=2),
         mk('rnd', with_sel(rndgen, ['mixed', 'some', 'all', 'mixed', 'none']), profiles.inputs_exhaustive(4, 6, cap_q=150, cap_t=900), per_tu=2),
         mk('deep', deep_grammars, deep_inputs, per_tu=2),
+        mk('chain', transformer_chains, chain_inputs, per_tu=2),
     ]
     return engine.run_engine('C12', tier, ['PegtlVerif.Props.C12'], ps)
 
